@@ -161,9 +161,15 @@ class CallGraph:
         if name == "fmt" and tr in ("std::fmt::Display", "std::fmt::Debug") and g:
             out += impls("fmt", g[0], tr)
         if callee["crate"] in ("serde_json", "serde", "serde_core"):
-            # serde entry points: every local Serialize/Deserialize impl of a type named in the generic args
+            # serde entry points: every local Serialize / Deserialize impl of a type named in the generic args
+            n = name.lower()
+            de = any(x in n for x in ("deserialize", "from_str", "from_slice", "from_reader", "from_value", "next_element", "next_value", "next_key", "next_entry", "variant", "newtype"))
+            ser = any(x in n for x in ("serialize", "to_vec", "to_string", "to_writer", "to_value")) and not n.startswith("deserialize")
+            if not de and not ser:
+                de = ser = True
+            pool = (by_trait_impl.get("serialize", []) if ser else []) + (by_trait_impl.get("deserialize", []) if de else [])
             for ga in g:
-                for b in by_trait_impl.get("serialize", []) + by_trait_impl.get("deserialize", []):
+                for b in pool:
                     if _ty_mentions(ga, b.impl_self):
                         out.append(b.defp)
         if name in ("serialize", "deserialize") and tr in ("serde::Serialize", "serde::Deserialize", "serde::ser::Serialize", "serde::de::Deserialize") and g:
